@@ -23,7 +23,16 @@ pub fn plan(tier: &str, prop: &str) -> Vec<SubRun> {
     let mut v = Vec::new();
     let c = |n, a| Cfg { n, async_mode: a };
     // properties for which SEQ is a secondary engine get a reduced quick plan (their primary engine carries the weight)
-    if tier == "quick" && matches!(prop, "C06" | "C20" | "C18") {
+    if tier == "quick" && prop == "C20" {
+        // restarts in the middle of a segment followed by boundary crossings need depth >= 4 at N=2 and >= 5 at N=3
+        v.push(SubRun { key: "String", alphabet: "base", depth: 4, cfg: c(2, false) });
+        v.push(SubRun { key: "String", alphabet: "tiny", depth: 5, cfg: c(3, false) });
+        v.push(SubRun { key: "String", alphabet: "base", depth: 3, cfg: c(1, false) });
+        v.push(SubRun { key: "String", alphabet: "base", depth: 3, cfg: c(10_000, false) });
+        v.push(SubRun { key: "String", alphabet: "tiny", depth: 4, cfg: c(2, true) });
+        return v;
+    }
+    if tier == "quick" && matches!(prop, "C06" | "C18") {
         for n in [1, 2, 10_000] {
             v.push(SubRun { key: "String", alphabet: "base", depth: 3, cfg: c(n, false) });
         }
@@ -36,7 +45,7 @@ pub fn plan(tier: &str, prop: &str) -> Vec<SubRun> {
         for n in [1, 2, 10_000] {
             v.push(SubRun { key: "String", alphabet: "base", depth: 4, cfg: c(n, false) });
         }
-        v.push(SubRun { key: "String", alphabet: "tiny", depth: 4, cfg: c(3, false) });
+        v.push(SubRun { key: "String", alphabet: "tiny", depth: 5, cfg: c(3, false) });
         v.push(SubRun { key: "String", alphabet: "tiny", depth: 4, cfg: c(2, true) });
         v.push(SubRun { key: "String", alphabet: "tiny", depth: 3, cfg: c(10_000, true) });
         v.push(SubRun { key: "String", alphabet: "wide", depth: 3, cfg: c(2, false) });
